@@ -205,6 +205,27 @@ def pmsi_construct(attr_dict, leaf, ty, label, tunnel_id):
     return {'raise': True} if 'none' in r else r
 
 
+def pmsi_parse(value, evpn):
+    """PMSITunnel.parse the way Update.parse_attributes calls it (second call: evpn_overlay is the truthy dict of
+    EVPN.signal_evpn_overlay); canonical: {'raise'} | {'hang'} | leaf, type, label, tunnel_id as [family, int] | None | text"""
+    import netaddr
+    from yabgp.message.attribute.pmsitunnel import PMSITunnel
+    ov = {'evpn': True, 'encap_ec': True, 'encap_value': 8} if evpn else False
+    st, out = with_budget(BUDGET, PMSITunnel.parse, value, ov)
+    if st != 'ok':
+        return {st: True}
+    tid = out.get('tunnel_id')
+    if isinstance(tid, str) and tid != 'not supported':
+        try:
+            a = netaddr.IPAddress(tid)
+            tid = [a.version, int(a)]
+        except Exception:
+            tid = ['text', tid]
+    lab = out.get('mpls_label')
+    return {'leaf': out.get('leaf_info_required'), 'type': out.get('tunnel_type'),
+            'label': lab[0] if isinstance(lab, list) and len(lab) == 1 else ['shape', repr(lab)], 'tunnel_id': tid}
+
+
 def _sid_py(x):
     d = {'label': x['label']}
     for k, pk in (('tc', 'TC'), ('s', 'S'), ('ttl', 'TTL')):
